@@ -1,4 +1,6 @@
 import Rangers.Basic.Hex
+import Rangers.Model.RewardFloat
+import Rangers.Generated.NondetSites
 /-!
 # Block execution (`core.VMExecutor.Execute`) as a pure function — property C01
 
@@ -31,14 +33,35 @@ abbrev Addr := Nat
 /-- point update of a total map -/
 def upd (f : Nat → Nat) (k v : Nat) (a : Nat) : Nat := if a = k then v else f a
 
+/-- one miner of the registry (storage of ProposerDBAddress / ValidatorDBAddress): the info JSON
+    written at creation (`applyHeight`, `jsonStatus`; it is what the trie iterator enumerates, so
+    only miners already in the parent state — `inParent` — are iterated) and the three keys read
+    fresh: stake, account (`hasAccount = false`: key emptied), status. `alive = false`: the id key
+    was emptied (`GetMiner` no longer finds it). -/
+structure MinerRec where
+  id : Nat
+  typ : Nat            -- 0 validator, 1 proposer
+  stake : Nat
+  account : Addr
+  hasAccount : Bool
+  status : Nat
+  jsonStatus : Nat
+  applyHeight : Nat
+  inParent : Bool
+  alive : Bool
+  deriving Repr, DecidableEq, Inhabited
+
 /-- Ledger content: native balance, nonce, and the refund escrow
-    (`storage(generateAddress(height))[id]`, big-endian amount, absent = 0). -/
+    (`storage(generateAddress(height))[id]`, big-endian amount, absent = 0), and the miner registry. -/
 structure St where
   bal : Addr → Nat
   nonce : Addr → Nat
   escrow : Nat → Addr → Nat
+  miners : List MinerRec
+  diff : Nat → Nat := fun _ => 0     -- storage(DifficultyAddress)[castor id]: blocks proposed in the window
+  working : Nat := 0                 -- storage(DifficultyAddress)[TotalWorkingMiners]
 
-def St.empty : St := ⟨fun _ => 0, fun _ => 0, fun _ _ => 0⟩
+def St.empty : St := ⟨fun _ => 0, fun _ => 0, fun _ _ => 0, [], fun _ => 0, 0⟩
 
 def addBal (s : St) (a : Addr) (v : Nat) : St := { s with bal := upd s.bal a (s.bal a + v) }
 def subBal (s : St) (a : Addr) (v : Nat) : St := { s with bal := upd s.bal a (s.bal a - v) }
@@ -135,6 +158,10 @@ inductive Body where
   | empty                       -- ExtraData == ""
   | badJson (data : Bytes)      -- json.Unmarshal failed
   | transfer (ts : List Target) -- the decoded map (keys pairwise distinct)
+  | refund (amount : Option Nat) (minerId : Nat)  -- MinerRefundData: ParseUint(Amount) (none = error), FromHex(MinerId)
+  | observed (ok : Bool) (ev : Bool) (msg : Bytes) (sets : List (Addr × Nat × Nat))
+      -- correspondence only: what an uninterpreted executor was observed to do (status, message,
+      -- balance and nonce of the watched addresses afterwards)
   deriving Repr, DecidableEq, Inhabited
 
 structure Tx where
@@ -150,11 +177,12 @@ structure Tx where
   deriving Repr, DecidableEq, Inhabited
 
 def typOperatorEvent : Nat := 100
+def typMinerRefund : Nat := 4
 def typETHTX : Nat := 188
 def typContract : Nat := 200
 def isContractTx (t : Nat) : Bool := t == typETHTX || t == typContract
 /-- transaction types with a registered executor that this model does not interpret -/
-def isOpaqueTyp (t : Nat) : Bool := t == 2 || t == 4 || t == 5 || t == 6 || t == 7 || t == 188 || t == 200
+def isOpaqueTyp (t : Nat) : Bool := t == 2 || t == 5 || t == 6 || t == 7 || t == 188 || t == 200
 
 /-- `types.Transactions.Less` (the `panic("equal hash")` branch is `false` here; the driver
     refuses such lists, see `hasEqualHashPair`). -/
@@ -182,6 +210,27 @@ def insertionSort (lt : α → α → Bool) (l : List α) : List α :=
 
 def sortTxs (f : Flags) (txs : List Tx) : List Tx := insertionSort (txLess f) txs
 
+/-- every earlier element is `Less` than every later one and not vice versa: on such a list
+    `Less` is a strict total order, and *any* correct comparison sort returns this list -/
+def strictSorted (lt : α → α → Bool) : List α → Bool
+  | [] => true
+  | a :: l => l.all (fun b => lt a b && !lt b a) && strictSorted lt l
+
+/-- what `sort.Sort` returns, as far as the model can say: insertion sort for ≤ 12 elements (Go's
+    own algorithm there); for longer lists only when `Less` is a strict total order on the list
+    (then the result is unique, see `sort_result_unique_total`); `none` = not modelled (pdqsort on a
+    non-total `Less`). -/
+def sortTxsAny (f : Flags) (txs : List Tx) : Option (List Tx) :=
+  let out := sortTxs f txs
+  if txs.length ≤ 12 then some out
+  else if strictSorted (txLess f) out then some out else none
+
+/-- Go's post-condition of `sort.Sort` (`sort.IsSorted`): no adjacent inversion -/
+def noAdjInv (lt : α → α → Bool) : List α → Prop
+  | [] => True
+  | [_] => True
+  | a :: b :: l => lt b a = false ∧ noAdjInv lt (b :: l)
+
 /-! ## the per transaction loop -/
 
 /-- what an uninterpreted executor (EVM, miner ops) returns: new ledger, success, message,
@@ -193,6 +242,7 @@ structure OpaqueOut where
   msg : Bytes
   extra : Nat
   refunds : List (Nat × Addr × Nat)
+  evicted : Bool := false   -- `Execute` (not `BeforeExecute`) failed while p018 is off
 
 /-- environment: constants and the uninterpreted deterministic parts -/
 structure Env where
@@ -243,30 +293,86 @@ def execOperator (tx : Tx) (s : St) : St × Bool × Bytes :=
     match r with
     | none => (s, (caMsg r).1, (caMsg r).2)          -- RevertToSnapshot
     | some (s', _) => (s', (caMsg r).1, (caMsg r).2)
+  | _ => (s, false, [])                              -- not produced for operator transactions
 
 /-- p007 epilogue: `SetNonce(source, GetNonce(source)+1)` unless a successful contract tx -/
 def p007Bump (f : Flags) (tx : Tx) (ok : Bool) (s : St) : St :=
   if f.p007 && !(isContractTx tx.typ && ok) then incNonce s tx.src else s
 
+def maxU64 : Nat := 18446744073709551615
+def weiPerRpg : Nat := 1000000000000000000
+def refundDelay : Nat := 36000
+
+def updMiner (s : St) (id : Nat) (g : MinerRec → MinerRec) : St :=
+  { s with miners := s.miners.map (fun m => if m.id = id ∧ m.alive then g m else m) }
+
+/-- `minerRefundExecutor`'s bookkeeping in `context["refund"]`: the map value is a *copy* of the
+    list header, so an id already present at that height is increased in place, a new height gets
+    a new list, but a new id at an existing height is appended to the copy only and lost. -/
+def queueRefund (q : List (Nat × Addr × Nat)) (e : Nat × Addr × Nat) : List (Nat × Addr × Nat) :=
+  if q.any (fun x => x.1 == e.1) then
+    (if q.any (fun x => x.1 == e.1 && x.2.1 == e.2.1) then q ++ [e] else q)
+  else q ++ [e]
+
+/-- `minerRefundExecutor.Execute` (signed tx, p012 active: refund height = now + 36000, miner
+    accounts are not contracts) → `RefundManager.GetRefundStake`. Result: ledger, ok, queue. -/
+def execRefund (height : Nat) (tx : Tx) (s : St) (q : List (Nat × Addr × Nat)) :
+    St × Bool × List (Nat × Addr × Nat) :=
+  match tx.body with
+  | .refund (some value) mid =>
+    match s.miners.find? (fun m => m.id == mid && m.alive) with
+    | none => (s, false, q)                                  -- "miner not existed"
+    | some m =>
+      if !(m.hasAccount && m.account == tx.src) then (s, false, q)    -- auth error
+      else
+        let money := if value = maxU64 then m.stake else value
+        if m.stake < money then (s, false, q)                -- "not enough stake"
+        else
+          let left := m.stake - money
+          let s' :=
+            if (m.typ = 1 ∧ left < 2000) ∨ (m.typ = 0 ∧ left < 400) then
+              (if left = 0 then
+                 updMiner s mid (fun r => { r with stake := 0, hasAccount := false, status := r.jsonStatus, alive := false })
+               else updMiner s mid (fun r => { r with stake := left, status := 1 }))   -- RemoveMiner
+            else updMiner s mid (fun r => { r with stake := left })                      -- UpdateMiner
+          (s', true, queueRefund q (height + refundDelay, m.account, money * weiPerRpg))
+  | .refund none _ => (s, false, q)                          -- ParseUint failed
+  | .badJson _ => (s, false, q)
+  | _ => (s, false, q)
+
+/-- the executors the model interprets; `none` for every other type -/
+def execModelled (height : Nat) (tx : Tx) (s : St) (q : List (Nat × Addr × Nat)) :
+    Option (St × Bool × Bytes × List (Nat × Addr × Nat)) :=
+  if tx.typ = typOperatorEvent then
+    let r := execOperator tx s
+    some (r.1, r.2.1, r.2.2, q)
+  else if tx.typ = typMinerRefund then
+    let r := execRefund height tx s q
+    some (r.1, r.2.1, [], r.2.2)       -- message text of miner transactions is not modelled
+  else none
+
 /-- one iteration of the loop in `VMExecutor.Execute` (situation ≠ "casting") -/
 def stepTx (env : Env) (f : Flags) (height : Nat) (L : Loop) (tx : Tx) : Loop :=
   if tx.typ = 0 then L else
   let s0 := if f.p006 && !f.p007 then incNonce L.st tx.src else L.st
-  if tx.typ = typOperatorEvent then
+  if tx.typ = typOperatorEvent ∨ tx.typ = typMinerRefund then
     let (s1, ok1, msg1) := beforeExecute env f tx s0
     if ok1 then
-      let (s2, ok2, msg2) := execOperator tx s1
-      let ev := if !ok2 && !f.p018 then tx.hash :: L.evicted else L.evicted
-      let s3 := if ok2 && tx.srcStr != [] && !f.p006 then incNonce s2 tx.src else s2
-      { st := p007Bump f tx ok2 s3, refunds := L.refunds,
-        receipts := ⟨tx.hash, !ok2, msg2, 0⟩ :: L.receipts, evicted := ev }
+      match execModelled height tx s1 L.refunds with
+      | some (s2, ok2, msg2, q2) =>
+        let ev := if !ok2 && !f.p018 then tx.hash :: L.evicted else L.evicted
+        let s3 := if ok2 && tx.srcStr != [] && !f.p006 then incNonce s2 tx.src else s2
+        { st := p007Bump f tx ok2 s3, refunds := q2,
+          receipts := ⟨tx.hash, !ok2, msg2, 0⟩ :: L.receipts, evicted := ev }
+      | none => { L with st := s1, receipts := ⟨tx.hash, true, [], 0⟩ :: L.receipts }
     else
       { st := p007Bump f tx false s1, refunds := L.refunds,
-        receipts := ⟨tx.hash, true, msg1, 0⟩ :: L.receipts, evicted := L.evicted }
+        receipts := ⟨tx.hash, true, (if tx.typ = typOperatorEvent then msg1 else []), 0⟩ :: L.receipts, evicted := L.evicted }
   else if isOpaqueTyp tx.typ then
     let o : OpaqueOut := env.other tx height s0
     { st := o.st, refunds := L.refunds ++ o.refunds,
-      receipts := ⟨tx.hash, !o.ok, o.msg, o.extra⟩ :: L.receipts, evicted := L.evicted }
+      receipts := ⟨tx.hash, !o.ok, o.msg, o.extra⟩ :: L.receipts,
+      evicted := if o.evicted then tx.hash :: L.evicted else L.evicted }
   else
     -- no executor registered: `success` stays false, nothing else happens
     { L with st := s0, receipts := ⟨tx.hash, true, [], 0⟩ :: L.receipts }
@@ -314,6 +420,61 @@ def rewardMap (r : RewardIn) (ordP ordV : List (Addr × Nat)) : RMap :=
   let m0 : RMap := RMap.add ⟨fun _ => 0, []⟩ r.castor
   let m1 := ordP.foldl RMap.add m0
   ordV.foldl RMap.assign m1
+
+/-! ### the reward inputs computed from the registry (bit-exact float64, `Model/RewardFloat.lean`) -/
+
+open Rangers.Model.RewardFloat in
+/-- header / chain facts the reward needs: `getTotalReward(height)` as a float64 bit pattern (the
+    only float value not computed by the model: it contains `math.Pow`), `common.GetRewardBlocks()`,
+    the castor id and the members of the signing group (`none`: no GroupId / group unknown). -/
+structure RewardCfg where
+  totalBits : Nat
+  rewardBlocks : Nat
+  castor : Nat
+  group : Option (List Nat)
+  deriving Repr, Inhabited
+
+/-- `getMinerAccount(id, kind)` → `BytesToAddress` (an emptied / missing key gives the zero address) -/
+def accountOf (s : St) (id typ : Nat) : Addr :=
+  match s.miners.find? (fun m => m.id == id && m.typ == typ) with
+  | some m => if m.hasAccount then m.account else 0
+  | none => 0
+
+/-- `getMinerStake(id, kind)` -/
+def stakeOf (s : St) (id typ : Nat) : Nat :=
+  match s.miners.find? (fun m => m.id == id && m.typ == typ) with
+  | some m => m.stake
+  | none => 0
+
+/-- `membersDetail[addr] = stake + current` -/
+def mergeStake (l : List (Addr × Nat)) (a : Addr) (v : Nat) : List (Addr × Nat) :=
+  match l with
+  | [] => [(a, v)]
+  | (i, w) :: r => if i = a then (i, w + v) :: r else (i, w) :: mergeStake r a v
+
+open Rangers.Model.RewardFloat in
+/-- `calculateRewardPerBlock`'s inputs to its three loops, computed as the Go code does: the
+    proposers the trie iterator yields (entries of the parent state, values read fresh, status
+    normal, applied), `float64(stake) / float64(total) * otherReward` per entry, validators merged
+    by account, `Float64ToBigInt` of every share; `NextRewardHeight` = ceil(h / n) · n. -/
+def rewardInOf (c : RewardCfg) (height : Nat) (s : St) : RewardIn :=
+  let total := ofBits c.totalBits
+  let castorShare := float64ToBigInt (mul total proposerReward)
+  let other := mul total allProposerReward
+  let ps := s.miners.filter (fun m => m.inParent && m.typ == 1 && m.status == 0 && decide (m.applyHeight ≤ height))
+  let tot : Nat := (ps.map (·.stake)).foldl (· + ·) 0
+  let proposers := if tot = 0 then [] else
+    ps.map (fun m => (accountOf s m.id 1, float64ToBigInt (mul (div (ofNat m.stake) (ofNat tot)) other)))
+  let validators := c.group.map (fun members =>
+    let merged : List (Addr × Nat) := members.foldl (fun acc id =>
+      let st := stakeOf s id 0
+      if st = 0 then acc else mergeStake acc (accountOf s id 0) st) []
+    let vtot : Nat := (merged.map (·.2)).foldl (· + ·) 0
+    let rv := mul total validatorsReward
+    if vtot = 0 then [] else
+      merged.map (fun e => (e.1, float64ToBigInt (mul (div (ofNat e.2) (ofNat vtot)) rv))))
+  let next := ceilNat (div (ofNat height) (ofNat c.rewardBlocks)) * c.rewardBlocks
+  ⟨(accountOf s c.castor 1, castorShare), proposers, validators, next⟩
 
 /-- `CalculateReward` ranges `total` (order `ordT` of its keys) building the refund list, then
     `RefundManager.Add` of `{nextHeight: list}`. -/
@@ -363,12 +524,49 @@ def groupRefunds : List (Nat × Addr × Nat) → List (Nat × List (Addr × Nat)
 structure Header where
   height : Nat
   p004Block : Nat
+  p010Block : Nat := 0xFFFFFFFFFFFFFFFF
+  p019Block : Nat := 0xFFFFFFFFFFFFFFFF
+  p025Block : Nat := 0xFFFFFFFFFFFFFFFF
+  castor : Nat := 0
   deriving Repr, DecidableEq, Inhabited
 
 /-- what `GetAllRefund(generateAddress(h))` returns, as far as the model's escrow goes:
     the entries of the candidate ids with a non-zero amount. -/
 def refundList (s : St) (h : Nat) (ids : List Addr) : List (Addr × Nat) :=
   (ids.filter (fun a => s.escrow h a != 0)).map (fun a => (a, s.escrow h a))
+
+/-- `MinerManager.RemoveMiner(id, account, type, db, 0)` for an account that is not a contract:
+    all four keys are emptied -/
+def deleteMiner (s : St) (id typ : Nat) : St :=
+  { s with miners := s.miners.map (fun m =>
+      if m.id = id ∧ m.typ = typ ∧ m.alive then
+        { m with stake := 0, hasAccount := false, status := m.jsonStatus, alive := false } else m) }
+
+/-- `removeUnusedValidator` (height = Proposal010Block): the hard-coded ids (list regenerated from
+    the source) that are validators are removed -/
+def removeUnused010 (s : St) : St :=
+  Rangers.Generated.NondetSites.unusedValidators010.foldl (fun s id =>
+    if s.miners.any (fun m => m.id == id && m.typ == 0 && m.alive) then deleteMiner s id 0 else s) s
+
+/-- `removeUnusedValidator1` → `MinerManager.RemoveUnusedValidator` (height = Proposal019Block):
+    every validator the iterator yields with status normal that is not on the white list -/
+def removeUnused019 (s : St) : St :=
+  let unused := s.miners.filter (fun m => m.inParent && m.typ == 0 && m.status == 0
+    && !(Rangers.Generated.NondetSites.whitelist019.contains m.id))
+  unused.foldl (fun s m => deleteMiner s m.id 0) s
+
+/-- `calcDifficulty`, first part (height < Proposal025Block + rewardBlocks; the second part needs
+    the header `rewardBlocks` below and is not modelled) -/
+def calcDifficulty (hd : Header) (s : St) : St :=
+  if hd.height < hd.p025Block then s
+  else if s.diff hd.castor = 0 then
+    { s with diff := upd s.diff hd.castor 1, working := s.working + 1 }
+  else { s with diff := upd s.diff hd.castor (s.diff hd.castor + 1) }
+
+/-- what `Execute` does between the transaction loop and `after()` -/
+def specialHeights (hd : Header) (s : St) : St :=
+  let s1 := if hd.height = hd.p010Block then removeUnused010 s else s
+  if hd.height = hd.p019Block then removeUnused019 s1 else s1
 
 /-- the reward part of `after()`: `CalculateReward` + `RefundManager.Add` of its result -/
 def rewardStepIn (ρ : Orders) (reward : Option RewardIn) (s : St) : St :=
@@ -382,10 +580,10 @@ def rewardStepIn (ρ : Orders) (reward : Option RewardIn) (s : St) : St :=
       rewardAddIn r.nextHeight m (ρ.total m.keys) s
 
 /-- `after()` for situation ≠ "testing" on the main chain, height below Proposal025. -/
-def afterIn (ρ : Orders) (hd : Header) (reward : Option RewardIn) (ids : List Addr)
+def afterIn (ρ : Orders) (hd : Header) (reward : St → Option RewardIn) (ids : List Addr)
     (refunds : List (Nat × Addr × Nat)) (s : St) : St :=
-  let s1 := refundAddIn (ρ.refund (groupRefunds refunds [])) s
-  let s2 := rewardStepIn ρ reward s1
+  let s1 := refundAddIn (ρ.refund (groupRefunds refunds [])) (calcDifficulty hd (specialHeights hd s))
+  let s2 := rewardStepIn ρ (reward s1) s1
   let s3 := checkAndMoveIn hd.height (ρ.checkMove (refundList s2 hd.height ids)) s2
   if hd.p004Block = hd.height then checkAndMoveIn 0 (ρ.checkMove (refundList s3 0 ids)) s3 else s3
 
@@ -394,9 +592,11 @@ structure Result where
   receipts : List Receipt
   evicted : List Nat
 
-/-- `VMExecutor.Execute` for situation ∉ {"casting","testing"}. `ids` bounds the escrow ids
+/-- `VMExecutor.Execute` for situation ∉ {"casting","testing"}. `reward` gives the reward inputs as
+    a function of the ledger after the transactions (`rewardInOf` computes them from the registry;
+    `fun _ => none` when `CalculateReward` returns nil). `ids` bounds the escrow ids
     looked at by `CheckAndMove` (the model's stand-in for iterating the storage trie). -/
-def execBlock (ρ : Orders) (env : Env) (f : Flags) (hd : Header) (reward : Option RewardIn)
+def execBlock (ρ : Orders) (env : Env) (f : Flags) (hd : Header) (reward : St → Option RewardIn)
     (ids : List Addr) (s : St) (txs : List Tx) : Result :=
   let L := (sortTxs f txs).foldl (stepTx env f hd.height) ⟨s, [], [], []⟩
   ⟨afterIn ρ hd reward ids L.refunds L.st, L.receipts.reverse, L.evicted.reverse⟩
@@ -424,7 +624,7 @@ def flagsAt (t : ForkTable) (g : Nat) : Flags :=
   ⟨decide (g ≥ t.p006), decide (g ≥ t.p007), decide (g ≥ t.p016), decide (g ≥ t.p018), decide (g ≥ t.p021), decide (g ≥ t.p023)⟩
 
 /-- block execution on a node whose chain top is `g` -/
-def execBlockAt (ρ : Orders) (env : Env) (t : ForkTable) (g : Nat) (hd : Header) (reward : Option RewardIn)
+def execBlockAt (ρ : Orders) (env : Env) (t : ForkTable) (g : Nat) (hd : Header) (reward : St → Option RewardIn)
     (ids : List Addr) (s : St) (txs : List Tx) : Result :=
   execBlock ρ env (flagsAt t g) hd reward ids s txs
 
